@@ -20,6 +20,8 @@ def run(ctx):
     E.e5_find_rule_exact(ctx)
     E.e7_minimise_bookkeeping(ctx)
     E.e8_alias_discipline(ctx)
+    from ..engines import storekeys as SK
+    SK.w4_pack_iteration(ctx)
     ctx.floor("E1", 5)
     ctx.floor("E2", 2)
     ctx.floor("E3", 6)
